@@ -215,7 +215,12 @@ def element_parsing(
     for i in range(elements.shape[0]):
         element = elements[i]
         if i < len(doc_lines):
-            current_tl_pos = line2pos.get(doc_lines[i], current_tl_pos)
+            # a line already placed by an earlier spine of the part fixes the position,
+            # but never before the end of this spine's own last note (an interpretation
+            # line such as a spine split may sit inside a sounding note)
+            current_tl_pos = max(
+                current_tl_pos, line2pos.get(doc_lines[i], current_tl_pos)
+            )
 
         # Handle editorial elements
         if isinstance(element, KernElement):
